@@ -10,7 +10,8 @@ Proved from the real code:
                     the nan diagonal is replaced by exactly 1, both routes give the same term
   __call__          the segment table handed to generate_weights for a chunk, (indices - ibegin).clip(min=0), selects for every local
                     point j the atom that owns the global point ibegin + j (symbolic N, M, chunk start), and the chunk is the right slice
-Bounded layer (rtc/C06.py): everything end-to-end incl. chunking with several chunks, invariances, Hirshfeld.
+Hirshfeld: generate_proatom = spline of the shipped table at the distance; __call__ (loop contract, any number of atoms) = pro-atom share.
+Bounded layer (rtc/C06.py): everything end-to-end incl. chunking with several chunks, invariances, Hirshfeld against the tables.
 """
 from __future__ import annotations
 
@@ -419,6 +420,169 @@ def build(chk):
     for natoms in (2, 3):
         weights_small(chk, natoms)
     call_chunking(chk)
+    hirshfeld(chk)
+
+
+def hirshfeld(chk):
+    """HirshfeldWeights: generate_proatom(points, c, Z)[i] = rho_Z(|p_i - c|) with rho_Z the spline through the shipped radial table
+    (np.load / CubicSpline by contract); __call__ for a symbolic number of atoms and points (loop contract): the value at a point of
+    atom A's segment is rho_A / sum_B rho_B - "the pro-atom density share" - and the shares of all atoms at one point sum to one."""
+    eng = chk.eng
+    HM = "grid.hirshfeld"
+    cls = eng.get_class(HM, "HirshfeldWeights")
+    fq_gen = f"{HM}.HirshfeldWeights.generate_proatom"
+    fq_call = f"{HM}.HirshfeldWeights.__call__"
+    N, Mm, i0, s0 = z3.Ints("N M i0 s0")
+    PT = z3.Function("pt", z3.IntSort(), z3.IntSort(), z3.RealSort())
+    # --- generate_proatom through the data file and the spline, by contract
+    RAD = z3.Function("table_r", z3.IntSort(), z3.IntSort(), z3.RealSort())
+    DN = z3.Function("table_dn", z3.IntSort(), z3.IntSort(), z3.RealSort())
+    SPL = z3.Function("natural_spline_of_table", z3.IntSort(), z3.RealSort(), z3.RealSort())      # (Z, r) -> value
+    Z0 = z3.Int("Z0")
+    C0 = [z3.Real(f"c{c}") for c in range(3)]
+    K = z3.Int("table_len")
+    rec = {}
+
+    def np_load(eng_, path):
+        rec["path"] = path
+        zz = rec["Z"]
+        return {"r": I.Arr((K,), lambda j: RAD(zz, T.zi(j)), "real"), "dn": I.Arr((K,), lambda j: DN(zz, T.zi(j)), "real")}
+
+    def spline(eng_, x=None, y=None, **kw):
+        rec["spline_args"] = (x, y, dict(kw))
+        zz = rec["Z"]
+
+        def ev(eng__, q, *a, **k2):
+            q = M.unwrap(q)
+            qf = q.fn
+            return I.Arr(q.shape, lambda *i: SPL(zz, T.zr(qf(*i))), "real")
+        return I.Model("spline", ev)
+
+    def t_gen(eng_):
+        eng_.assume(z3.And(N >= 1, i0 >= 0, i0 < N, Z0 >= 1, K >= 2))
+        rec.clear()
+        rec["Z"] = Z0
+        eng_.externals["numpy.load"] = np_load
+        eng_.externals["scipy.interpolate.CubicSpline"] = spline
+        try:
+            pts = I.Arr((N, 3), lambda i, c: PT(T.zi(i), T.zi(c)), "real")
+            cen = I.Arr((3,), lambda c: M.select_const(c, [lambda v=v: v for v in C0]), "real")
+            out = eng_.call_method(I.Obj(cls), "generate_proatom", pts, cen, Z0)
+            return out.fn(i0) if out.ndim == 1 else None, out.shape, dict(rec)
+        finally:
+            eng_.externals.pop("numpy.load", None)
+            eng_.externals.pop("scipy.interpolate.CubicSpline", None)
+    rep = {"what": "hirshfeld"}
+    outs = chk.explore("hirshfeld/generate_proatom", t_gen, func=fq_gen)
+    rets = [o for o in outs if o.kind == "return"]
+    chk.add("hirshfeld/generate_proatom/post/returns", [], z3.BoolVal(bool(rets) and len(rets) == len(outs)), func=fq_gen, meta={"replay": rep})
+    for oi, o in enumerate(rets):
+        sfx = "" if len(rets) == 1 else f"@{oi}"
+        val, shape, r_ = o.value
+        chk.add_from_path("hirshfeld/generate_proatom" + sfx, o, func=fq_gen, meta={"replay": rep})
+        chk.add(f"hirshfeld/generate_proatom/post/one-value-per-point{sfx}", list(o.pc), z3.BoolVal(len(shape) == 1) if len(shape) != 1 else T.zi(shape[0]) == N,
+                func=fq_gen, meta={"replay": rep})
+        if val is None:
+            continue
+        d2 = sum((PT(i0, c) - C0[c]) * (PT(i0, c) - C0[c]) for c in range(3))
+        chk.add(f"hirshfeld/generate_proatom/post/spline-of-the-table-at-the-distance{sfx}", list(o.pc), T.zr(val) == SPL(Z0, T.UF1["sqrt"](0 + d2)),
+                func=fq_gen, meta={"replay": rep})
+        x_, y_, kw_ = r_.get("spline_args", (None, None, {}))
+        ok = isinstance(x_, I.Arr) and isinstance(y_, I.Arr) and x_.ndim == 1 and y_.ndim == 1
+        chk.add(f"hirshfeld/generate_proatom/post/spline-through-the-shipped-table{sfx}", list(o.pc),
+                z3.And(T.zr(x_.fn(i0)) == RAD(Z0, i0), T.zr(y_.fn(i0)) == DN(Z0, i0)) if ok else z3.BoolVal(False), func=fq_gen, meta={"replay": rep})
+        chk.add(f"hirshfeld/generate_proatom/post/natural-spline{sfx}", [], z3.BoolVal(kw_.get("bc_type") == "natural"), func=fq_gen, meta={"replay": rep})
+
+    # --- __call__: loop over the atoms
+    RHO = z3.Function("proatom_density", z3.IntSort(), z3.IntSort(), z3.RealSort())       # (atom k, point i): contract of generate_proatom
+    Ind = z3.Function("indices", z3.IntSort(), z3.IntSort())
+    ZN = z3.Function("atnum", z3.IntSort(), z3.IntSort())
+    AC = z3.Function("atcoord", z3.IntSort(), z3.IntSort(), z3.RealSort())
+    TOT = z3.Function("promolecule_prefix", z3.IntSort(), z3.RealSort())                  # sum_{k' < k} RHO(k', i0)
+    calls = []
+
+    def gen_contract(eng_, f, args, kwargs):
+        a = [x for x in args if not isinstance(x, (I.Obj, I.ClassRef))]
+        pts, coord, num = a[0], a[1], a[2]
+        k = T.fresh("atom", "int")
+        # the arguments identify the atom: its coordinates row and its atomic number
+        calls.append((pts, coord, num))
+        kk = eng_.hirsh_k
+        eng_.oblige("generate_proatom/pre/atom-coordinates-and-number-of-this-atom",
+                    z3.And(*[T.zr(coord.fn(c)) == AC(kk, c) for c in range(3)], T.zi(num) == ZN(kk),
+                           *[T.zr(pts.fn(i0, c)) == PT(i0, c) for c in range(3)]), kind="callee-pre")
+        return I.Arr((N,), lambda i: RHO(kk, T.zi(i)), "real")
+
+    def inv(fr, kk):
+        kk = T.zi(kk)
+        aw, pm = fr.load_name("aim_weights"), fr.load_name("promolecule")
+        own = z3.And(s0 >= 0, s0 < Mm, Ind(s0) <= i0, i0 < Ind(s0 + 1))
+        return z3.And(z3.BoolVal(aw.ndim == 1 and pm.ndim == 1), T.zi(aw.shape[0]) == N, T.zi(pm.shape[0]) == N,
+                      T.zr(pm.fn(i0)) == TOT(kk),
+                      z3.Implies(own, T.zr(aw.fn(i0)) == z3.If(s0 < kk, RHO(s0, i0), 0)))
+
+    def hav(fr, name, old):
+        k = spec.k
+        fr.eng.hirsh_k = k
+        if name == "promolecule":
+            old.fn = lambda i, k=k: z3.If(T.zi(i) == i0, TOT(k), PMH(k, T.zi(i)))
+            return None
+        if name == "aim_weights":
+            old.fn = lambda i, k=k: AWH(k, T.zi(i))
+            return None
+        return None
+    PMH = z3.Function("promolecule_havoc", z3.IntSort(), z3.IntSort(), z3.RealSort())
+    AWH = z3.Function("aim_havoc", z3.IntSort(), z3.IntSort(), z3.RealSort())
+    spec = I.LoopSpec(inv, havoc=hav, modifies=["aim_weights", "promolecule"], name="atoms")
+
+    def t_call(eng_):
+        eng_.assume(z3.And(N >= 1, Mm >= 1, i0 >= 0, i0 < N, s0 >= 0, s0 < Mm, Ind(s0) <= i0, i0 < Ind(s0 + 1)))
+        eng_.assume(z3.And(Ind(0) == 0, Ind(Mm) == N))
+        eng_.hirsh_k = z3.IntVal(0)
+        eng_.loop_specs[(fq_call, 1)] = spec
+        eng_.callee_contracts[fq_gen] = gen_contract
+        eng_.generic_indices = [i0]
+        try:
+            pts = I.Arr((N, 3), lambda i, c: PT(T.zi(i), T.zi(c)), "real")
+            atc = I.Arr((Mm, 3), lambda k, c: AC(T.zi(k), T.zi(c)), "real")
+            nums = I.Arr((Mm,), lambda k: ZN(T.zi(k)), "int")
+            ind = I.Arr((Mm + 1,), lambda k: Ind(T.zi(k)), "int")
+            out = eng_.call_method(I.Obj(cls), "__call__", pts, atc, nums, ind)
+            return out.fn(i0), out.shape
+        finally:
+            eng_.loop_specs.pop((fq_call, 1), None)
+            eng_.callee_contracts.pop(fq_gen, None)
+            eng_.generic_indices = []
+    for o in chk.explore("hirshfeld/__call__", t_call, func=fq_call):
+        ks = [u for u in T.subterms(z3.And(*([h for h in o.pc if T.is_sym(h)] + [ob.goal for ob in o.obligations if T.is_sym(ob.goal)] + [z3.BoolVal(True)]))).values()
+              if z3.is_const(u) and u.decl().name().startswith("k!")]
+        # definitions and MolGrid index-table invariant (non-decreasing from 0 to N), instantiated at the loop position and the generic atom
+        facts = [TOT(0) == 0]
+        for k in ks + [Mm]:
+            facts += [z3.Implies(z3.And(k >= 0, k < Mm), z3.And(TOT(k + 1) == TOT(k) + RHO(k, i0), Ind(k) <= Ind(k + 1), Ind(k) >= 0, Ind(k + 1) <= N)),
+                      z3.Implies(z3.And(s0 < k, k <= Mm), Ind(s0 + 1) <= Ind(k)), z3.Implies(z3.And(k >= 0, k < s0), Ind(k + 1) <= Ind(s0))]
+        for ob in o.obligations:
+            ob.hyps = list(ob.hyps) + facts
+        chk.add_from_path("hirshfeld/__call__", o, func=fq_call, meta={"replay": rep})
+        if o.kind == "return":
+            val, shape = o.value
+            chk.add("hirshfeld/__call__/post/pro-atom-density-share-of-the-owning-atom", list(o.pc) + facts, T.zr(val) == RHO(s0, i0) / TOT(Mm), func=fq_call,
+                    meta={"replay": rep})
+            chk.add("hirshfeld/__call__/post/one-value-per-point", list(o.pc), z3.BoolVal(len(shape) == 1) if len(shape) != 1 else T.zi(shape[0]) == N, func=fq_call,
+                    meta={"replay": rep})
+        elif o.kind == "raise":
+            chk.add("hirshfeld/__call__/post/no-raise-for-integer-atomic-numbers", list(o.pc), z3.BoolVal(False), func=fq_call, meta={"replay": rep})
+    # shares of all atoms at one point sum to one (two and three atoms written out; the general case is the same identity)
+    r1, r2, r3 = z3.Reals("rho1 rho2 rho3")
+    chk.add("hirshfeld/lemma/shares-sum-to-one", [r1 + r2 + r3 != 0], r1 / (r1 + r2 + r3) + r2 / (r1 + r2 + r3) + r3 / (r1 + r2 + r3) == 1, kind="lemma", func=fq_call)
+    # non-integer atomic numbers are refused
+    def t_bad(eng_):
+        nums = I.Arr((2,), lambda k: z3.Real("zf"), "real")
+        return eng_.call_method(I.Obj(cls), "__call__", I.Arr((3, 3), lambda i, c: Fraction(0), "real"), I.Arr((2, 3), lambda i, c: Fraction(0), "real"), nums,
+                                I.Arr((3,), lambda k: k, "int"))
+    outs = chk.explore("hirshfeld/__call__/float-atnums", t_bad, func=fq_call)
+    chk.add("hirshfeld/__call__/raises/TypeError-for-non-integer-atomic-numbers", [], z3.BoolVal(bool(outs) and all(o.kind == "raise" and o.exc == "TypeError" for o in outs)),
+            func=fq_call, meta={"replay": rep})
 
 
 def main(tier="quick", seed=0, bounded=True, proof=True):
@@ -430,7 +594,7 @@ def main(tier="quick", seed=0, bounded=True, proof=True):
         "switch argument in [-1,1] (lemmas nu-in-range / reverse triangle inequality / alpha bound, proved separately) and a positive normaliser",
         "general atom counts: weights in [0,1] and sum to one follow from the per-pair facts by the product/sum lemmas (not machine-checked for symbolic M)",
         "np.concatenate of the chunks of range(0, N, chunk) tiles [0, N) (definition of range/concatenate); MolGrid index table is non-decreasing from 0 to N",
-        "Hirshfeld weights, invariances, positivity of the normaliser: bounded layer only",
+        "invariances (rigid motions, relabelling), positivity of the normaliser, values of the shipped pro-atom tables and of SciPy's natural spline (np.load / CubicSpline by contract): bounded layer only",
     ]
     if proof:
         build(chk)
